@@ -1,6 +1,190 @@
-//! Rope programs (filled in with the C16 work).
-use serde_json::Value;
+//! Rope programs (property C16 / C19): a program is a pair of rope
+//! expressions over an arena of string pieces; every observer of the public
+//! Rope API is applied and written down. Nothing is judged here.
+//!
+//! expression: ["new"] | ["from", p] | ["from_iter", [p...]] | ["add", e, p]
+//!           | ["append", e, e] | ["slice", e, a, b] | ["line", e, k]
 
-pub fn run_program(_pid: u64, _prog: &Value) -> Vec<Value> {
-  vec![]
+use std::{
+  hash::{Hash, Hasher},
+  panic::{catch_unwind, AssertUnwindSafe},
+};
+
+use rspack_sources::Rope;
+use serde_json::{json, Value};
+
+use crate::exec::{bytes_json, LAST_PANIC};
+
+fn eval<'a>(e: &Value, arena: &'a [String]) -> Option<Rope<'a>> {
+  let piece = |v: &Value| -> &'a str { arena[v.as_u64().unwrap() as usize].as_str() };
+  match e[0].as_str().unwrap() {
+    "new" => Some(Rope::new()),
+    "from" => Some(Rope::from(piece(&e[1]))),
+    "from_iter" => Some(
+      e[1]
+        .as_array()
+        .unwrap()
+        .iter()
+        .map(piece)
+        .collect::<Rope<'a>>(),
+    ),
+    "add" => {
+      let mut r = eval(&e[1], arena)?;
+      r.add(piece(&e[2]));
+      Some(r)
+    }
+    "append" => {
+      let mut r = eval(&e[1], arena)?;
+      let o = eval(&e[2], arena)?;
+      r.append(o);
+      Some(r)
+    }
+    "slice" => {
+      let r = eval(&e[1], arena)?;
+      let a = e[2].as_u64().unwrap() as usize;
+      let b = e[3].as_u64().unwrap() as usize;
+      r.get_byte_slice(a..b)
+    }
+    "line" => {
+      let r = eval(&e[1], arena)?;
+      let k = e[2].as_u64().unwrap() as usize;
+      let line = r.lines().nth(k);
+      line
+    }
+    other => panic!("HARNESS: unknown rope op {other}"),
+  }
+}
+
+/// every unary observer; each one guarded on its own so that one panic does
+/// not hide the other answers
+fn observe(r: &Rope) -> Value {
+  let mut out = serde_json::Map::new();
+  let mut panics = vec![];
+  macro_rules! guard {
+    ($name:expr, $body:expr) => {
+      match catch_unwind(AssertUnwindSafe(|| $body)) {
+        Ok(v) => {
+          out.insert($name.to_string(), v);
+        }
+        Err(_) => {
+          panics.push(json!([$name, LAST_PANIC.with(|c| c.borrow().clone())]));
+          out.insert($name.to_string(), json!("panic"));
+        }
+      }
+    };
+  }
+  guard!("len", json!(r.len()));
+  guard!("is_empty", json!(r.is_empty()));
+  guard!("to_string", bytes_json(r.to_string().as_bytes()));
+  guard!("to_bytes", bytes_json(&r.to_bytes()));
+  guard!("bytes", {
+    let n = r.len();
+    let v: Vec<Value> = (0..n).map(|i| json!(r.get_byte(i).map(|b| b as i64).unwrap_or(-1))).collect();
+    json!(v)
+  });
+  guard!("byte_past_end", json!(r.get_byte(r.len()).map(|b| b as i64).unwrap_or(-1)));
+  guard!("char_indices", {
+    let v: Vec<Value> = r.char_indices().map(|(i, c)| json!([i, c as u32])).collect();
+    json!(v)
+  });
+  guard!("lines", {
+    let v: Vec<Value> = r.lines().map(|l| bytes_json(l.to_string().as_bytes())).collect();
+    json!(v)
+  });
+  guard!("ends_with", {
+    // the last character, a line break, and a letter
+    let last = r.to_string().chars().last();
+    let mut v = vec![];
+    for c in [last.unwrap_or('x'), '\n', 'a'] {
+      v.push(json!([c as u32, r.ends_with(c)]));
+    }
+    json!(v)
+  });
+  guard!("hash", {
+    let mut h = twox_hash::XxHash64::default();
+    r.hash(&mut h);
+    json!(format!("{:016x}", h.finish()))
+  });
+  guard!("debug", json!(format!("{:?}", r).len()));
+  out.insert("panics".into(), json!(panics));
+  Value::Object(out)
+}
+
+fn pair(a: &Rope, b: &Rope) -> Value {
+  let mut panics = vec![];
+  let mut get = |name: &str, f: &dyn Fn() -> bool| -> Value {
+    match catch_unwind(AssertUnwindSafe(f)) {
+      Ok(v) => json!(v),
+      Err(_) => {
+        panics.push(json!([name, LAST_PANIC.with(|c| c.borrow().clone())]));
+        json!("panic")
+      }
+    }
+  };
+  let bs = b.to_string();
+  let sw = get("starts_with", &|| a.starts_with(b));
+  let eq = get("eq", &|| a == b);
+  let eq_str = get("eq_str", &|| *a == *bs.as_str());
+  let eq_ref = get("eq_ref", &|| *a == bs.as_str());
+  json!({"starts_with": sw, "eq": eq, "eq_str": eq_str, "eq_ref": eq_ref, "panics": panics})
+}
+
+/// get_byte_slice for every range with 0 <= a, b <= len + 1
+fn slices(r: &Rope) -> Value {
+  let n = r.len();
+  let mut v = vec![];
+  let mut panics = vec![];
+  for a in 0..=n + 1 {
+    for b in 0..=n + 1 {
+      match catch_unwind(AssertUnwindSafe(|| r.get_byte_slice(a..b).map(|s| s.to_string()))) {
+        Ok(Some(s)) => v.push(json!([a, b, [bytes_json(s.as_bytes())]])),
+        Ok(None) => v.push(json!([a, b, []])),
+        Err(_) => {
+          panics.push(json!([a, b, LAST_PANIC.with(|c| c.borrow().clone())]));
+          v.push(json!([a, b, [[-1]]]));
+        }
+      }
+    }
+  }
+  json!({"all": v, "panics": panics})
+}
+
+pub fn run_program(pid: u64, prog: &Value) -> Vec<Value> {
+  let arena: Vec<String> = prog["pieces"]
+    .as_array()
+    .map(|a| a.iter().map(crate::build::string_of).collect())
+    .unwrap_or_default();
+  let mut recs = vec![];
+  for step in prog["steps"].as_array().map(|a| a.as_slice()).unwrap_or(&[]) {
+    let mut rec = step.clone();
+    let obj = rec.as_object_mut().unwrap();
+    obj.insert("pid".into(), json!(pid));
+    obj.insert("pieces".into(), prog["pieces"].clone());
+    let res = catch_unwind(AssertUnwindSafe(|| {
+      let a = eval(&step["a"], &arena);
+      let b = eval(&step["b"], &arena);
+      match (a, b) {
+        (Some(a), Some(b)) => json!({
+          "valid": true,
+          "a": observe(&a), "b": observe(&b),
+          "ab": pair(&a, &b), "ba": pair(&b, &a),
+          "slices": slices(&a),
+        }),
+        _ => json!({"valid": false}),
+      }
+    }));
+    match res {
+      Ok(out) => {
+        obj.insert("oc".into(), json!("ok"));
+        obj.insert("out".into(), out);
+      }
+      Err(_) => {
+        obj.insert("oc".into(), json!("panic"));
+        obj.insert("out".into(), json!({}));
+        obj.insert("loc".into(), json!(LAST_PANIC.with(|c| c.borrow().clone())));
+      }
+    }
+    recs.push(rec);
+  }
+  recs
 }
